@@ -13,6 +13,46 @@ PROPS = ['C01', 'C02', 'C03', 'C04', 'C05', 'C06', 'C07', 'C08', 'C09', 'C10', '
          'C17', 'C18', 'C19', 'C20']
 
 
+def sensitivity(ck, pid, repo_root):
+    """
+    thorough tier only: after the rules have been evaluated on the tree, replay this property's catalogue of confirmed
+    rule-breaking edits (selftest/cat_*.py, incl. the independent seeded changes) and behaviour-preserving twins against
+    scratch copies of the CURRENT tree (static analysis of the edited source; nothing is executed), so that each run
+    re-establishes that every armed rule still fires on its positive examples and stays silent on the benign ones.
+    Edits whose anchor no longer exists in the tree are skipped and counted.  An example that is no longer decided as
+    confirmed is reported as SENSITIVITY-NOTE and recorded in the evidence (it says something about the checker, not about
+    chython, so it never changes the verdict; ./selftest.sh is the gate for the checker itself).
+    """
+    import concurrent.futures as cf
+    verif = os.path.dirname(os.path.dirname(os.path.abspath(__file__)))
+    sys.path.insert(0, os.path.join(verif, 'selftest'))
+    import run as st
+    entries = []
+    for e in st.load_catalogue():
+        if pid in e['props']:
+            e = dict(e, props=[pid], tier='quick')
+            entries.append(e)
+    res = {'replayed': 0, 'fired': 0, 'silent_on_benign': 0, 'skipped_anchor_gone': 0}
+    lost = []
+    with cf.ThreadPoolExecutor(min(16, os.cpu_count() or 4)) as ex:
+        for e, (eid, ok, msgs) in zip(entries, ex.map(lambda e: st.run_entry(e, repo_root), entries)):
+            if msgs and msgs[0].startswith('SETUP:'):
+                res['skipped_anchor_gone'] += 1
+                continue
+            res['replayed'] += 1
+            if ok:
+                res['fired' if e['kind'] == 'mutant' else 'silent_on_benign'] += 1
+            else:
+                lost.append(f'{eid}: ' + ' | '.join(msgs)[:300])
+    ck.analysed['sensitivity_replay'] = res
+    ck.note(f'sensitivity replay: {res}')
+    print(f'sensitivity replay ({pid}): {res}')
+    if lost and not ck.findings:
+        res['lost'] = lost[:20]
+        for ln in lost[:20]:
+            print(f'SENSITIVITY-NOTE example no longer decided as confirmed: {ln}')
+
+
 def main():
     ap = argparse.ArgumentParser()
     ap.add_argument('property')
@@ -35,6 +75,8 @@ def main():
         from .model import Repo
         repo = Repo(args.repo)
         mod.run(ck, repo)
+        if args.tier == 'thorough' and not args.replay and not os.environ.get('VERIF_NO_SENSITIVITY'):
+            sensitivity(ck, pid, args.repo)
         return ck.finish()
 
     run_guarded(run)
